@@ -89,3 +89,23 @@ func TestURLSpellings(t *testing.T) {
 		t.Errorf("resolve oracle must expect an error when only undownloadable entries match, got %v", acc)
 	}
 }
+
+// '-' inside build metadata does not make a pre-release; '+' after a
+// pre-release does not make it stable.
+func TestHyphenAndPlusPlacement(t *testing.T) {
+	for v, stable := range map[string]bool{"1.3.0+git-4f2a": true, "0.8.0+build-7": true, "1.3.0+b7": true, "1.4.0-rc.1+b7": false, "1.4.0-rc.1+git-4f2a": false, "1.4.0-rc.1": false} {
+		p, ok := parseSV(v)
+		if !ok || p.stable() != stable {
+			t.Errorf("%s: ok=%v stable=%v want stable=%v", v, ok, p.stable(), stable)
+		}
+	}
+	a, _ := parseSV("1.3.0+git-4f2a")
+	b, _ := parseSV("1.3.0")
+	if cmpSV(a, b) != 0 {
+		t.Error("build metadata must not affect precedence")
+	}
+	cands := validCands([]string{"1.2.0", "1.3.0+git-4f2a", "1.4.0-rc.1+b7"})
+	if acc, how := expect(cands, "", true, false); len(acc) != 1 || cands[acc[0]].Version != "1.3.0+git-4f2a" || how != "stable" {
+		t.Errorf("empty query: %v %s", acc, how)
+	}
+}
